@@ -442,6 +442,17 @@ def setupFixture (P : Proj) (svs : List SuiteView) (w : Nat) (k : InstKey) (suit
         if r.isNone then modify fun ts => { ts with insts := ts.insts.add k name }
         return r
 
+/-- `teardown_factory`: every created object of a per-thread fixture, oldest first; a failing teardown does
+    not stop the loop, the first exception is re-raised once all objects have been torn down -/
+def teardownObjects (f : Fx) (first : Option ExcKind) : List (InstKey × String × Nat) → M (Option ExcKind)
+  | [] => return first
+  | _ :: rest => do
+    if f.gen then
+      match ← runUnit (.fx f.func true) f.teardown with
+      | some e => teardownObjects f (if first.isSome then first else some e) rest
+      | none => teardownObjects f first rest
+    else teardownObjects f first rest
+
 /-- `ScheduledFixtures._teardown_fixture(name)` -/
 def teardownFixture (P : Proj) (k : InstKey) (name : String) : M (Option ExcKind) := do
   match findFx P name with
@@ -450,18 +461,8 @@ def teardownFixture (P : Proj) (k : InstKey) (name : String) : M (Option ExcKind
     if !(← get).insts.has k name then do modelErr s!"AssertionError: fixture {name} not executed"; return none
     else
       let r ← (if f.perThread then do
-          -- `teardown_factory`: every created object, oldest first; a failing teardown does not stop the loop,
-          -- the first exception is re-raised once all objects have been torn down
           let objs := (← get).insts.ptObjects.filter (fun x => x.1 == k && x.2.1 == name)
-          let rec go (first : Option ExcKind) : List (InstKey × String × Nat) → M (Option ExcKind)
-            | [] => return first
-            | _ :: rest => do
-              if f.gen then
-                match ← runUnit (.fx f.func true) f.teardown with
-                | some e => go (if first.isSome then first else some e) rest
-                | none => go first rest
-              else go first rest
-          go none objs
+          teardownObjects f none objs
         else if f.gen then runUnit (.fx f.func true) f.teardown
         else pure none)
       if r.isNone then modify fun ts => { ts with insts := ts.insts.del k name }
@@ -510,13 +511,21 @@ def runTd (P : Proj) (svs : List SuiteView) (loc : Loc) : Td → M (Option ExcKi
     | none => pure none
   | .none_ => pure none
 
+/-- one iteration of the loop of `run_teardown_funcs`: `None` is skipped, an exception is handled (and the
+    loop goes on) -/
+def tdStep (P : Proj) (svs : List SuiteView) (loc : Loc) (hs : Option Path) (td : Td) : M Unit := do
+  if td != .none_ then
+    match ← runTd P svs loc td with
+    | some e => handleException e hs hs.isSome
+    | none => pure ()
+
+def runTdList (P : Proj) (svs : List SuiteView) (loc : Loc) (hs : Option Path) : List Td → M Unit
+  | [] => pure ()
+  | td :: rest => do tdStep P svs loc hs td; runTdList P svs loc hs rest
+
 /-- `RunContext.run_teardown_funcs(teardown_funcs)`: reversed, `None`s skipped, exceptions survive -/
-def runTeardownFuncs (P : Proj) (svs : List SuiteView) (loc : Loc) (hs : Option Path) (tds : List Td) : M Unit := do
-  for td in tds.reverse do
-    if td != .none_ then
-      match ← runTd P svs loc td with
-      | some e => handleException e hs hs.isSome
-      | none => pure ()
+def runTeardownFuncs (P : Proj) (svs : List SuiteView) (loc : Loc) (hs : Option Path) (tds : List Td) : M Unit :=
+  runTdList P svs loc hs tds.reverse
 
 def mdOf (name : String) (rank : Nat) : Meta :=
   { name := name, description := "", tags := [], properties := [], links := [], rank := rank }
@@ -561,6 +570,82 @@ def teardownProgram (P : Proj) (svs : List SuiteView) (loc : Loc)
     runTeardownFuncs P svs loc none kept
     sop 0 endOp
 
+/-! #### The test task (`TestTask.run` / `TestTask.skip`), split into its phases -/
+
+def testDisabledNow (P : Proj) (sv : SuiteView) (ts : TestSpec) : Bool :=
+  (ts.disabled || sv.inhDisabled) && !P.forceDisabled
+
+def disabledReasonOf (ts : TestSpec) : Option String := if ts.disabledReason && ts.disabled then some "" else none
+
+/-- the (setup, teardown) pairs of a test: the suite's `setup_test`/`teardown_test` hooks, then the test-scoped fixtures -/
+def testPairs (P : Proj) (sv : SuiteView) (ts : TestSpec) (path : Path) : List (Option SetupFn × Td) :=
+  (sv.spec.setupTest.map (fun sc => SetupFn.setupTest sc path),
+   if sv.spec.teardownTest.isSome then Td.teardownTest path.dropLast path else Td.none_) ::
+  (testFixtures P ts).map (fun n => (some (SetupFn.fixture (.test path) n), Td.fixture (.test path) n))
+
+def testSetup (P : Proj) (svs : List SuiteView) (w : Nat) (path : Path) (sv : SuiteView) (ts : TestSpec) : M (List Td) :=
+  let pairs := testPairs P sv ts path
+  if pairs.any (fun p => p.1.isSome) then runSetupFuncs P svs w path.dropLast (.test path) (some path.dropLast) pairs []
+  else pure (pairs.filterMap (fun p => if p.2 == .none_ then none else some p.2))
+
+/-- `_prepare_test_args` (a per-thread fixture is evaluated at its first use by the thread: here) and
+    the body are guarded together; the body runs only if the test is still successful -/
+def testBody (P : Proj) (svs : List SuiteView) (w : Nat) (path : Path) (ts : TestSpec) : M Unit := do
+  if (← isOk (.test path)) then
+    match ← lookupAll P svs w (.test path) path.dropLast ts.fixtures with
+    | some e => handleException e (some path.dropLast) true
+    | none =>
+      if (← isOk (.test path)) then
+        sop 0 (.setStep ("test " ++ ts.name))   -- set_step(test.description); the harness names it "test <name>"
+        match ← runUnit (.body path) ts.script with
+        | some e => handleException e (some path.dropLast) true
+        | none => pure ()
+
+def testTeardown (P : Proj) (svs : List SuiteView) (path : Path) (kept : List Td) : M Unit := do
+  if kept.any (· != .none_) then
+    sop 0 (.setStep "Teardown test")
+    runTeardownFuncs P svs (.test path) (some path.dropLast) kept
+
+/-- `TestTask.run` of an enabled test -/
+def testRun (P : Proj) (svs : List SuiteView) (w : Nat) (path : Path) (sv : SuiteView) (ts : TestSpec) :
+    M (ResClass × List Td) := do
+  sop 0 (.startTest path (mdOf ts.name ts.rank))
+  sop 0 (.setStep "Setup test")
+  let kept ← testSetup P svs w path sv ts
+  testBody P svs w path ts
+  testTeardown P svs path kept
+  sop 0 (.endTest path)
+  return (if (← isOk (.test path)) then .success else .failure, [])
+
+/-- `TestTask.skip` (a disabled test is reported as disabled, not skipped) -/
+def testSkip (P : Proj) (path : Path) (sv : SuiteView) (ts : TestSpec) (reason : Bool) : M (ResClass × List Td) := do
+  if testDisabledNow P sv ts then
+    sop 0 (.disableTest path (mdOf ts.name ts.rank) (disabledReasonOf ts))
+  else
+    sop 0 (.skipTest path (mdOf ts.name ts.rank) (if reason then some "" else none))
+  return (.skipped, [])
+
+def testTask (P : Proj) (svs : List SuiteView) (w : Nat) (path : Path) (run reason : Bool) (sv : SuiteView)
+    (ts : TestSpec) : M (ResClass × List Td) :=
+  if !run then testSkip P path sv ts reason
+  else if testDisabledNow P sv ts then do
+    sop 0 (.disableTest path (mdOf ts.name ts.rank) (disabledReasonOf ts))
+    return (.success, [])
+  else testRun P svs w path sv ts
+
+def sessSetupPairs (P : Proj) : List (Option SetupFn × Td) :=
+  (sessionFixtures P).map (fun n => (some (SetupFn.fixture .session n), Td.fixture .session n))
+
+def initPairs (P : Proj) (sv : SuiteView) (path : Path) : List (Option SetupFn × Td) :=
+  let fxPairs := (suiteFixtures P sv).map (fun n => (some (SetupFn.fixture (.suite path) n), Td.fixture (.suite path) n))
+  let injPairs := if sv.spec.injected.isEmpty then [] else [(some (SetupFn.inject sv.spec.injected), Td.none_)]
+  let hookPairs :=
+    if sv.spec.setupSuite.isSome || sv.spec.teardownSuite.isSome then
+      [((sv.spec.setupSuite.map (fun (ps, sc) => SetupFn.setupSuite ps sc)),
+        (if sv.spec.teardownSuite.isSome then Td.teardownSuite path else Td.none_))]
+    else []
+  fxPairs ++ injPairs ++ hookPairs
+
 /-- the whole behaviour of one task.  `run = true`: `task.run(context)`, `false`: `task.skip(context, reason)`;
     `reason`: whether a skip reason string was given; `kept`: the teardown list of the matching setup task. -/
 def taskProgram (P : Proj) (svs : List SuiteView) (w : Nat) (t : TaskId) (run : Bool) (reason : Bool)
@@ -573,8 +658,8 @@ def taskProgram (P : Proj) (svs : List SuiteView) (w : Nat) (t : TaskId) (run : 
   | .end_ => do sop 0 (.endSuite t.path); return (if run then .success else .skipped, [])
   | .sessSetup =>
     if !run then return (.skipped, []) else do
-    let pairs := (sessionFixtures P).map (fun n => (some (SetupFn.fixture .session n), Td.fixture .session n))
-    let (kept, failed) ← phaseProgram P svs w [] .sessionSetup .startSessionSetup .endSessionSetup "Setup test session" pairs
+    let (kept, failed) ← phaseProgram P svs w [] .sessionSetup .startSessionSetup .endSessionSetup "Setup test session"
+      (sessSetupPairs P)
     return (if failed then .failure else .success, kept)
   | .sessTeardown => do
     teardownProgram P svs .sessionTeardown .startSessionTeardown .endSessionTeardown "Teardown test session" kept
@@ -584,65 +669,19 @@ def taskProgram (P : Proj) (svs : List SuiteView) (w : Nat) (t : TaskId) (run : 
     match svs.find? (fun sv => sv.path == t.path) with
     | none => do modelErr "unknown suite"; return (.exception, [])
     | some sv => do
-      let fxPairs := (suiteFixtures P sv).map (fun n => (some (SetupFn.fixture (.suite t.path) n), Td.fixture (.suite t.path) n))
-      let injPairs := if sv.spec.injected.isEmpty then [] else [(some (SetupFn.inject sv.spec.injected), Td.none_)]
-      let hookPairs :=
-        if sv.spec.setupSuite.isSome || sv.spec.teardownSuite.isSome then
-          [((sv.spec.setupSuite.map (fun (ps, sc) => SetupFn.setupSuite ps sc)),
-            (if sv.spec.teardownSuite.isSome then Td.teardownSuite t.path else Td.none_))]
-        else []
       let (kept, failed) ← phaseProgram P svs w t.path (.suiteSetup t.path) (.startSuiteSetup t.path) (.endSuiteSetup t.path)
-        "Setup suite" (fxPairs ++ injPairs ++ hookPairs)
+        "Setup suite" (initPairs P sv t.path)
       return (if failed then .failure else .success, kept)
   | .teardown => do
     teardownProgram P svs (.suiteTeardown t.path) (.startSuiteTeardown t.path) (.endSuiteTeardown t.path) "Teardown suite" kept
     return (if run then .success else .skipped, [])
   | .test =>
-    let suite := t.path.dropLast
-    match svs.find? (fun sv => sv.path == suite) with
+    match svs.find? (fun sv => sv.path == t.path.dropLast) with
     | none => do modelErr "unknown suite"; return (.exception, [])
     | some sv =>
       match sv.spec.tests.find? (fun x => x.name == t.path.getLast?.getD "") with
       | none => do modelErr "unknown test"; return (.exception, [])
-      | some ts => do
-        let md := mdOf ts.name ts.rank
-        let disabledNow := (ts.disabled || sv.inhDisabled) && !P.forceDisabled
-        let loc := Loc.test t.path
-        if !run then
-          if disabledNow then
-            sop 0 (.disableTest t.path md (if ts.disabledReason && ts.disabled then some "" else none))
-          else
-            sop 0 (.skipTest t.path md (if reason then some "" else none))
-          return (.skipped, [])
-        else if disabledNow then
-          sop 0 (.disableTest t.path md (if ts.disabledReason && ts.disabled then some "" else none))
-          return (.success, [])
-        else
-          sop 0 (.startTest t.path md)
-          let hookPair : (Option SetupFn × Td) :=
-            (sv.spec.setupTest.map (fun sc => SetupFn.setupTest sc t.path),
-             if sv.spec.teardownTest.isSome then Td.teardownTest suite t.path else Td.none_)
-          let fxPairs := (testFixtures P ts).map (fun n => (some (SetupFn.fixture (.test t.path) n), Td.fixture (.test t.path) n))
-          let pairs := hookPair :: fxPairs
-          sop 0 (.setStep "Setup test")
-          let kept ← (if pairs.any (fun p => p.1.isSome) then runSetupFuncs P svs w suite loc (some suite) pairs []
-                      else pure (pairs.filterMap (fun p => if p.2 == .none_ then none else some p.2)))
-          if (← isOk loc) then
-            -- `_prepare_test_args` (a per-thread fixture is evaluated at its first use by the thread: here) and
-            -- the body are guarded together; the body runs only if the test is still successful
-            match ← lookupAll P svs w (.test t.path) suite ts.fixtures with
-            | some e => handleException e (some suite) true
-            | none =>
-              if (← isOk loc) then
-                sop 0 (.setStep ("test " ++ ts.name))   -- set_step(test.description); the harness names it "test <name>"
-                match ← runUnit (.body t.path) ts.script with
-                | some e => handleException e (some suite) true
-                | none => pure ()
-          if kept.any (· != .none_) then
-            sop 0 (.setStep "Teardown test")
-            runTeardownFuncs P svs loc (some suite) kept
-          sop 0 (.endTest t.path)
-          return (if (← isOk loc) then .success else .failure, [])
+      | some ts => testTask P svs w t.path run reason sv ts
 
 /-- run one task from scratch on worker `w` -/
 def runTask (P : Proj) (insts : Insts) (w : Nat) (t : TaskId) (run : Bool) (reason : Bool) (kept : List Td)
